@@ -112,8 +112,8 @@ pub fn check(c: &Case) -> CheckResult {
 
 pub fn strategy() -> impl Strategy<Value = Case> {
     prop_oneof![
-        12 => g::message(g::MsgParams { large: false, ..Default::default() }),
-        1 => g::message(g::MsgParams::default()),
+        12 => g::message(g::MsgParams { large: false, free_noar: true, ..Default::default() }),
+        1 => g::message(g::MsgParams { free_noar: true, ..Default::default() }),
     ]
     .prop_map(|msg| Case { msg })
 }
